@@ -1438,17 +1438,17 @@ FINDINGS = [
      "what": "the variant name chosen for a bound variable could be a constant of the theory (theory hoare: `P (%P. q P)` printed `P (%P1. q P1)` where P1 is a constant)"},
     {"status": "fixed", "key": "memo-history:nested-binder-names", "commit": "b9d00cb",
      "what": "the printer memo key contained only the names of outermost binders: after printing `!x. ?y. R x y`, the alpha-variant `!x. ?z. R x z` printed as the former"},
-    {"status": "fixed", "key": "memo-theory-history", "commit": "fixes/C07-10.patch",
+    {"status": "fixed", "key": "memo-theory-history", "commit": "a8b0ec8",
      "what": "the printer memo survived a change of theory: after load_theory('set') f (%P1. P1) printed 'f (%P1. P1)'; after set_context('hoare') "
              "(P1 is a constant there) the cached text was returned and did not parse; a fresh table prints 'f (%P11. P11)'"},
-    {"status": "fixed", "key": "roundtrip:non-canonical-binary", "commit": "fixes/C07-11.patch",
+    {"status": "fixed", "key": "roundtrip:non-canonical-binary", "commit": "dd063ea",
      "what": "of_nat (bit0 (bit1 zero)) :: real printed as (2::real), which parses to of_nat (bit0 one): binary numerals with leading zero bits "
              "(also inside Char) were printed as literals"},
-    {"status": "fixed", "key": "print-raises:many-annotations", "commit": "fixes/C07-12.patch",
+    {"status": "fixed", "key": "print-raises:many-annotations", "commit": "f5a1afe",
      "what": "infer_printed_type gave up after 99 annotations: a conjunction of 101 copies of ([]::'a list) = [] raised AssertionError"},
-    {"status": "fixed", "key": "roundtrip:char-underscore", "commit": "fixes/C07-14.patch",
+    {"status": "fixed", "key": "roundtrip:char-underscore", "commit": "fcbe548",
      "what": "Char 95 prints as '_' and parse_term(\"'_'\") raised TypeError (the anonymous token \"_\" is filtered out of the parse tree)"},
-    {"status": "fixed", "key": "item-roundtrip:inst-tyinst", "commit": "fixes/C07-13.patch",
+    {"status": "fixed", "key": "item-roundtrip:inst-tyinst", "commit": "bff492c",
      "what": "export_proof_item dropped the type part (Inst.tyinst) of an instantiation; it is now written {'a: T, x: t} and read back by parse_inst"},
     {"status": "fixed", "key": "roundtrip:char-string-literal", "commit": "31716be",
      "what": "characters/strings outside the grammar's literal syntax (`Char 32`, the empty string, \"a b\") were printed as quoted literals that do not parse"},
